@@ -17,7 +17,8 @@ CHECKS = {
             "Answers include a receive-side OSError that is neither a ConnectionError nor a timeout (before the status line and in mid-body); one retries value has a status budget below the total "
             "(the first retried status exhausts it while the response still holds its connection). "
             "Responses the caller has finished with stay referenced (nothing may rely on garbage collection). Family dial: the real create_connection over a fake socket module, "
-            "every answer vector (socket/setsockopt/bind/connect failing or succeeding) for a host that resolves to 1-3 addresses: every socket of a failed address is closed.",
+            "every answer vector (socket/setsockopt/bind/connect failing or succeeding) for a host that resolves to 1-3 addresses: every socket of a failed address is closed. "
+            "Disposal ops include read1() in pieces that stops at the announced length without a final empty read.",
             "simnet socket stand-in (close()/makefile() release semantics), stub TLS for https kinds, environment answer menus listed in the evidence; bounds: deviation and depth per pass as recorded.",
             "DESIGN.md §3 C01"),
     "C02": ("model_checking",
@@ -82,7 +83,7 @@ CHECKS = {
             "Every truncation point, every single-byte corruption of each chunk-size line, bit flips at every byte of the compressed stream and every content cut inside intact framing, "
             "each read by every read program (incl. read1() without a size) through a real pool followed by a second request, with the peer closing after the faulty response and with the peer keeping the connection open; "
             "an independent reference decides bad / either / ok. Broken framing is also read with decode_content=False at the request and at every read call. "
-            "Further inputs: a stacked coding whose inner zstd stream is cut inside intact gzip and framing; a damaged size line before a 70000-byte newline-free chunk; chunk sizes >= 2**63.",
+            "Further inputs: a stacked coding whose inner zstd stream is cut inside intact gzip and framing; a damaged size line before a 70000-byte newline-free chunk; chunk sizes >= 2**63; zstd streams of 2 and 3 frames cut at every byte (a cut inside a later frame is an incomplete stream).",
             "simnet stand-in; reference chunked de-framer and std decompressobj verdicts in mc/checks/c13.py; 'either' regions documented there.",
             "DESIGN.md §3 C13"),
     "C17": ("model_checking",
@@ -107,7 +108,7 @@ CHECKS = {
             "handshake failure in a tunnel, 500, 503+Retry-After, 429+date, 418+Retry-After) is run through the real HTTPConnectionPool/ProxyManager retry loop for every Retry spelling "
             "(False, ints, per-category budgets, allowed_methods, forcelist, raise_on_status, respect_retry_after_header, backoff) x method x pool kind; an accountant over simnet's ledger "
             "(dials, requests received, what the server did, sleeps, final result) checks budgets, non-idempotent re-sends, retries=False, Retry immutability, sleep bounds and how the loop ends. "
-            "Further outcomes: a read-phase OSError that is no ConnectionError, a 413 whose Retry-After date lies in the past; backoff configurations include backoff_max=0. "
+            "Further outcomes: a read-phase OSError that is no ConnectionError, a 413 whose Retry-After date lies in the past; backoff configurations include backoff_max=0; Retry-After dates are spelt in GMT, +0200 and -0500 by attempt number (the same instant). "
             "Block P: a proxy that is itself reached over TLS, whose handshake can fail on every fresh dial (charged to `other`), against the full budget product.",
             "simnet + stub TLS; virtual clock; random pinned; knob-collapse argument recorded in the evidence assumptions; the ledger never calls Retry methods.",
             "DESIGN.md \u00a73 C04"),
@@ -118,7 +119,7 @@ CHECKS = {
             "requires request j to be the j-th intended request with the right method/body/content headers, a follow-up while the budget lasts and none afterwards, and the outcome the statement names. "
             "Further families: an explicit request-level retries=None over a constructor-level policy; the first attempt dying after the request was received so that the RETRIED attempt gets the redirect; "
             "constructor-level default headers with content headers under request headers made of content headers only. "
-            "Outside that family the caller's content headers are spelt in mixed capitalisation.",
+            "Outside that family the caller's content headers are spelt in mixed capitalisation. Family F5: the policy given for one pool of a manager through connection_from_url(pool_kwargs=), every policy value.",
             "stateless chain server (mc/c05_chains.py) encodes the remaining chain in the URL; only redirects consume budget here (C04 owns faults).",
             "DESIGN.md \u00a73 C05"),
     "C06": ("exploration",
@@ -127,7 +128,7 @@ CHECKS = {
             "custom remove_headers_on_redirect sets at request and manager level, all 3xx codes and Location forms; from the first origin change on no strip-set header may appear, every other header must arrive unchanged, "
             "single-host pools must raise HostChangedError without dialling elsewhere. Also: manager defaults carrying credentials under request headers made of strip-set fields only "
             "(no header may APPEAR on a later hop), chains from a non-default port (scheme change keeps host and port), and chains whose first attempt is broken and retried; "
-            "a plain dict that holds every sensitive field under two spellings; a single-host pool built without a port (another port of its host is another origin).",
+            "a plain dict that holds every sensitive field under two spellings; a single-host pool built without a port (another port of its host is another origin); body-carrying requests (POST) in both tiers, so that the 303 rewrite and the cross-origin strip compose.",
             "origins are judged from what the network saw (dialled address, TLS layer, absolute-form target, CONNECT authority) by an independent normaliser.",
             "DESIGN.md \u00a73 C06"),
     "C08": ("exploration",
@@ -143,7 +144,7 @@ CHECKS = {
             "and the server closing the tunnel in between; every byte is labelled with the TLS nesting it travelled in; tunnel iff the documented truth table says so, CONNECT authority exact, origin-form inside / absolute-form outside, "
             "proxy headers never inside a tunnel, refused CONNECT => request never sent and ProxyError/SSLError, closed tunnel re-established before reuse. "
             "Also: redirect chains that switch one caller request between forwarding and tunnelling, one SSLContext shared by the proxy and destination layers with proxy_assert_hostname, "
-            "and a private CA pinned for destinations only (the proxy leg keeps its own trust domain).",
+            "a private CA pinned for destinations only (the proxy leg keeps its own trust domain), and a caller-given server_hostname on every tunnel row (it names the certificate inside the tunnel only).",
             "stub TLS stands in for OpenSSL (conformance-checked against real TLS via mc.tlsnet on fault-free tunnel cases each run); python 3.12 http.client._tunnel writes CONNECT.",
             "DESIGN.md \u00a73 C09"),
     "C11": ("exploration",
